@@ -174,6 +174,9 @@ total_len!(total_len03, 3);
 total_len!(total_len04, 4);
 total_len!(total_len19, 19);
 total_len!(total_len25, 25);
+// the accepted length with the cipher replaced by the identity: EVERY decrypted block reaches the field / position / track
+// code (the identity maps the set of all blocks onto itself); the real cipher on every packet is total_len26 (thorough)
+total_len!(total_len26_id, 26);
 total_len!(total_len27, 27);
 total_len!(total_len40, 40);
 
@@ -188,6 +191,44 @@ harness! {
     /// XXTEA encryptor and decrypted by the real code)
     fn fields_discrete(s) {
         let words: [u32; 5] = [s.u32(), s.u32(), s.u32(), s.u32(), s.u32()];
+        let ts = s.u32();
+        let addr = s.u32();
+        let icao_kind = s.bool();
+        let tail: [u8; 2] = s.bytes();
+        vassume!(addr < (1 << 24));
+        let magic = if icao_kind { 0x10 } else { 0x20 };
+        let msg = packet(addr, magic, &cipher_words(&words, ts, addr), tail);
+        let r = Flarm::from_record(ts, &[45.0, 5.0], &msg[..]);
+        vcover!(r.is_ok());
+        vassert!(r.is_ok(), "well-formed packet decodes");
+        if let Ok(f) = &r {
+            vassert!(f.decoded.len() == 5 && f.decoded[0] == words[0] && f.decoded[1] == words[1] && f.decoded[2] == words[2]
+                     && f.decoded[3] == words[3] && f.decoded[4] == words[4], "plaintext block recovered");
+            vassert!(address_of(f) == addr, "device address");
+            vassert!(f.is_icao24 == icao_kind, "address kind flag");
+            vassert!(f.timestamp == ts, "timestamp echoed");
+            vassert!(f.actype == actype_of(words[0] >> 28), "aircraft type");
+            vassert!(f.stealth == ((words[0] >> 13) & 1 == 1) && f.no_track == ((words[0] >> 14) & 1 == 1), "stealth / no-track flags");
+            vassert!(f.gps == (words[0] >> 16) & 0xfff, "GPS status");
+            vassert!(f.geoaltitude == (words[1] >> 19) & 0x1fff, "altitude (m)");
+            finite_and_track(f);
+        }
+        core::mem::forget(r);
+    }
+}
+
+harness! {
+    #[kani::unwind(30)]
+    #[kani::stub(alloc::fmt::format, crate::stubs::fmt_stub)]
+    #[kani::stub(libm::atan2, crate::stubs::k::atan2_stub)]
+    #[kani::stub(rs1090::decode::flarm::btea, btea_identity)]
+    /// discrete fields for EVERY plaintext block, address, timestamp and address kind (reference
+    /// fixed): address, kind, type, flags, GPS status, altitude equal the packer's bit slices
+    /// (under Kani the cipher is the identity; natively the block is encrypted by the independent
+    /// XXTEA encryptor and decrypted by the real code)
+    fn fields_discrete_q(s) {
+        // quick-tier variant: the bits that only feed the floating-point position / velocity arithmetic are concrete
+        let words: [u32; 5] = [s.u32(), (s.u32() & 0xfff8_0000) | 0x0001_2345, 0x0004_5678, 0x0102_0304, 0x0506_0708];
         let ts = s.u32();
         let addr = s.u32();
         let icao_kind = s.bool();
@@ -253,13 +294,14 @@ harness! {
     #[kani::stub(libm::atan2, crate::stubs::k::atan2_stub)]
     #[kani::stub(rs1090::decode::flarm::btea, btea_record)]
     #[kani::stub(rs1090::decode::flarm::obscure, obscure_rec)]
-    /// every timestamp (all 2^32), every 24-bit address, both address kinds, every block
+    /// every timestamp (all 2^32), every 24-bit address, both address kinds; the block is one concrete value (the key does
+    /// not depend on it, and a symbolic block drags the whole position / track arithmetic into the formula: 443 s vs seconds)
     fn key_schedule(s) {
-        let words: [u32; 5] = [s.u32(), s.u32(), s.u32(), s.u32(), s.u32()];
+        let words: [u32; 5] = [0x1234_5678, 0x0abc_def0, 0x0fed_cba9, 0x0765_4321, 0x0357_9bdf];
         let ts = s.u32();
         let addr = s.u32();
         let icao_kind = s.bool();
-        let tail: [u8; 2] = s.bytes();
+        let tail: [u8; 2] = [0, 0];
         vassume!(addr < (1 << 24));
         let magic = if icao_kind { 0x10 } else { 0x20 };
         let msg = packet(addr, magic, &cipher_words(&words, ts, addr), tail);
@@ -493,5 +535,5 @@ cipher_word!(cipher_word3, 3);
 cipher_word!(cipher_word4, 4);
 
 registry!(total_len26, total_len00, total_len03, total_len04, total_len19, total_len25, total_len27, total_len40,
-          fields_discrete, key_schedule, obscure_equiv,
+          fields_discrete, fields_discrete_q, total_len26_id, key_schedule, obscure_equiv,
           pos_lat_a_00, pos_lat_a_01, pos_lat_a_02, pos_lat_a_03, pos_lat_a_04, pos_lat_a_05, pos_lat_a_06, pos_lat_a_07, pos_lon_a_00, pos_lon_a_01, pos_lon_a_02, pos_lon_a_03, pos_lon_a_04, pos_lon_a_05, pos_lon_a_06, pos_lon_a_07, pos_lon_a_08, pos_lon_a_09, pos_lon_a_10, pos_lon_a_11, pos_lon_a_12, pos_lon_a_13, pos_lon_a_14, pos_lon_a_15, pos_lat_b_00, pos_lat_b_01, pos_lat_b_02, pos_lat_b_03, pos_lat_b_04, pos_lat_b_05, pos_lat_b_06, pos_lat_b_07, pos_lon_b_00, pos_lon_b_01, pos_lon_b_02, pos_lon_b_03, pos_lon_b_04, pos_lon_b_05, pos_lon_b_06, pos_lon_b_07, pos_lon_b_08, pos_lon_b_09, pos_lon_b_10, pos_lon_b_11, pos_lon_b_12, pos_lon_b_13, pos_lon_b_14, pos_lon_b_15, pos_lat_c_00, pos_lat_c_01, pos_lat_c_02, pos_lat_c_03, pos_lat_c_04, pos_lat_c_05, pos_lat_c_06, pos_lat_c_07, pos_lon_c_00, pos_lon_c_01, pos_lon_c_02, pos_lon_c_03, pos_lon_c_04, pos_lon_c_05, pos_lon_c_06, pos_lon_c_07, pos_lon_c_08, pos_lon_c_09, pos_lon_c_10, pos_lon_c_11, pos_lon_c_12, pos_lon_c_13, pos_lon_c_14, pos_lon_c_15, cipher_word0, cipher_word1, cipher_word2, cipher_word3, cipher_word4);
